@@ -23,7 +23,8 @@ Proof. intros path sg args H1 H2. apply signature_iff; assumption. Qed.
 Print Assumptions C13_signature.
 
 (* For every sequence of register_resolver / register_default_resolver /
-   register_subscription / schema.validate() / direct validate_schema(schema,
+   register_subscription / assignment to schema.default_resolver /
+   schema.validate() / direct validate_schema(schema,
    enable_resolver_validation=b) calls on a fresh schema: each schema.validate()
    answers what a fresh full validator says about the state it runs in --
    whatever validate_schema calls with either flag came before -- and each
